@@ -134,9 +134,6 @@ pub fn thick_oracle(ctx: &mut Ctx, s: Point, e: Point, w: u32, px: &[Point]) {
             cmax = cmax.max(cross);
         }
     }
-    if std::env::var("EGV_THICK_MEASURE").is_ok() {
-        measure(s, e, w, px, dx, dy, l2);
-    }
     // A failure of the band claim is attributed to the known finding only if every pixel is inside
     // the band once the uncounted displacement of its side (skipped Extra steps) is discounted.
     let (skl, skr, _) = joins_port::skipped_extras(((s.x as i64, s.y as i64), (e.x as i64, e.y as i64)), w);
@@ -199,43 +196,6 @@ pub fn thick_oracle(ctx: &mut Ctx, s: Point, e: Point, w: u32, px: &[Point]) {
     ctx.expect(hs.is_empty(), "C17:thick-hole", || {
         format!("{:?}->{:?} w={} {} lattice points within w/2-1 of the line and 1 px inside the ends are not stroked, e.g. {:?}", s, e, w, hs.len(), hs[0])
     });
-}
-
-fn measure(s: Point, e: Point, w: u32, px: &[Point], dx: i128, dy: i128, l2: i128) {
-    let l = (l2 as f64).sqrt();
-    let m = dx.abs().min(dy.abs()) as f64;
-    let (skl, skr, npar) = joins_port::skipped_extras(((s.x as i64, s.y as i64), (e.x as i64, e.y as i64)), w);
-    let (mut lo, mut hi) = (0f64, 0f64);
-    let (mut mlo, mut mhi, mut nmid) = (f64::MAX, f64::MIN, 0);
-    for p in px {
-        let (vx, vy) = ((p.x - s.x) as i128, (p.y - s.y) as i128);
-        let c = (dx * vy - dy * vx) as f64 / l;
-        let dot = dx * vx + dy * vy;
-        lo = lo.min(c);
-        hi = hi.max(c);
-        if (2 * dot - l2) * (2 * dot - l2) <= 4 * l2 {
-            nmid += 1;
-            mlo = mlo.min(c);
-            mhi = mhi.max(c);
-        }
-    }
-    let half = w as f64 / 2.0;
-    // left side = cross < 0
-    let exl = -lo - half;
-    let exr = hi - half;
-    let dl = exl - m * skl as f64 / l;
-    let dr = exr - m * skr as f64 / l;
-    let holes = holes_cnt(s, e, w, px, 1);
-    let holes0 = holes_cnt(s, e, w, px, 0);
-    eprintln!(
-        "M w={} dx={} dy={} npar={} skl={} skr={} exl={:.3} exr={:.3} dl={:.3} dr={:.3} midw={:.3} nmid={} holes1={} holes0={}",
-        w, dx, dy, npar, skl, skr, exl, exr, dl, dr, if nmid > 0 { mhi - mlo + 1.0 - w as f64 } else { -99.0 }, nmid, holes, holes0
-    );
-}
-
-fn holes_cnt(s: Point, e: Point, w: u32, px: &[Point], margin: i128) -> usize {
-    let set: HashSet<(i32, i32)> = px.iter().map(|p| (p.x, p.y)).collect();
-    holes(s, e, w, &set, margin).len()
 }
 
 /// Integer points q of the ideal band interior that are not in `px`:
